@@ -196,8 +196,14 @@ class KeplerNum(NumericalPropagator):
         dates = kwargs.get("dates")
 
         if dates is not None:
-            start = dates.start
-            stop = dates.stop
+            if not hasattr(dates, "start"):
+                # Explicit list of dates (or any iterable) instead of a DateRange
+                dates = list(dates)
+                start = min(dates)
+                stop = max(dates)
+            else:
+                start = dates.start
+                stop = dates.stop
             step = None
         else:
             start = kwargs.get("start", self.orbit.date)
